@@ -27,6 +27,8 @@ def main(tier, seed):
         nrand = 60 if tier == "quick" else 1500
         for _ in range(nrand):
             hs.append(("random", random_history(r, r.choice([6, 12, 25, 60]))))
+        for _ in range(120 if tier == "quick" else 3000):
+            hs.append(("epochs", epoch_history(r)))
         # large cores: cross 8192 / 32768 / 65536 blocks
         big = [("append", [b"\x01"] * 9000), ("reopen",), ("get", 8191), ("get", 8999), ("clear", 4000, 4100),
                ("reopen",), ("append", [b"\x02"] * 25000), ("reopen",), ("get", 33999)]
